@@ -53,7 +53,7 @@ pub fn parse_templates(src: &str) -> Vec<Template> {
             };
             continue;
         }
-        let line = line.replace('␤', "\n");
+        let line = line.replace('␤', "\n").replace('␍', "\r");
         let mut parts = vec![String::new()];
         let mut slots: Vec<Vec<String>> = vec![];
         let mut in_slot = false;
@@ -463,6 +463,10 @@ pub enum CStyle {
     LongPara,
     /// the same as a `///` doc comment
     LongDoc,
+    /// `// cN` on its own line at column 0, followed by a blank line (group boundary after the comment)
+    LineOwnBlankAfter,
+    /// a blank line, then `// cN` on its own line at column 0
+    LineOwnBlankBefore,
 }
 
 pub static CSTYLES: &[CStyle] = &[
@@ -484,6 +488,8 @@ pub fn comment_text(style: CStyle, n: usize) -> String {
         CStyle::BlockMulti => format!("\n/* c{n} first\n   second line */\n"),
         CStyle::Line4 => format!("\n//// c{n} here\n"),
         CStyle::Block3 => format!(" /*** c{n} here */ "),
+        CStyle::LineOwnBlankAfter => format!("\n// c{n} here\n\n"),
+        CStyle::LineOwnBlankBefore => format!("\n\n// c{n} here\n"),
         CStyle::LongPara => format!(
             "\n// c{n} Lorem ipsum dolor sit amet, consectetur adipiscing elit, sed do eiusmod tempor incididunt ut labore et dolore magna aliqua\n// Ut enim ad minim veniam, quis nostrud exercitation ullamco laboris nisi ut aliquip ex ea commodo consequat.\n"
         ),
